@@ -515,6 +515,7 @@ type c09RespOpts struct {
 	MutEnc     func(el *etree.Element) *etree.Element // on the EncryptedAssertion, before the response is signed
 	MutResp    func(el *etree.Element)                // before the response is signed
 	PlainBytes func(assertion []byte) (plain []byte)  // replace the plaintext that gets encrypted
+	EncCipher  xmlenc.BlockCipher                     // content-encryption algorithm (nil: AES128-CBC)
 }
 
 // c09BuildResponse renders a genuine Response of the foreign IdP at moment t0, with the
@@ -545,7 +546,7 @@ func c09BuildResponse(o c09RespOpts, t0 time.Time) *etree.Element {
 		if o.PlainBytes != nil {
 			plain = o.PlainBytes(plain)
 		}
-		asEl = c09EncryptBytes(plain, rsaKeys[1])
+		asEl = c09EncryptBytesWith(plain, rsaKeys[1], o.EncCipher)
 		if o.MutEnc != nil {
 			asEl = o.MutEnc(asEl)
 		}
@@ -572,8 +573,15 @@ func c09BuildResponse(o c09RespOpts, t0 time.Time) *etree.Element {
 // c09EncryptBytes wraps arbitrary plaintext into saml:EncryptedAssertion for the holder of kp
 // (RSA-OAEP + AES128-CBC, as the library IdP does).
 func c09EncryptBytes(plain []byte, kp KeyPair) *etree.Element {
+	return c09EncryptBytesWith(plain, kp, nil)
+}
+
+func c09EncryptBytesWith(plain []byte, kp KeyPair, bc xmlenc.BlockCipher) *etree.Element {
 	enc := xmlenc.OAEP()
 	enc.BlockCipher = xmlenc.AES128CBC
+	if bc != nil {
+		enc.BlockCipher = bc
+	}
 	enc.DigestMethod = &xmlenc.SHA1
 	ed, err := enc.Encrypt(kp.Cert, plain, nil)
 	if err != nil {
@@ -903,6 +911,39 @@ func c09ShortCipher(st *c09Step) func(*etree.Element) *etree.Element {
 		if which != 0 {
 			if cv := ea.FindElement("./EncryptedData/KeyInfo/EncryptedKey/CipherData/CipherValue"); cv != nil {
 				cv.SetText(val)
+			}
+		}
+		return ea
+	}
+}
+
+// c09CipherAlgs: every content-encryption algorithm the library registers a decrypter for; anybody can encrypt to the SP's
+// public certificate and name any of them, with a properly wrapped key of the right length and a cipher value of any length.
+var c09CipherAlgs = []struct {
+	name string
+	bc   xmlenc.BlockCipher
+}{
+	{"aes128-gcm", nil}, // the library's GCM.Encrypt cannot be driven through its key-transport Encrypt (nil nonce): an AES128-CBC envelope, renamed
+	{"tripledes-cbc", xmlenc.TripleDES},
+	{"aes192-cbc", xmlenc.AES192CBC},
+	{"aes256-cbc", xmlenc.AES256CBC},
+	{"aes128-cbc", xmlenc.AES128CBC},
+}
+
+var c09CipherLens = []int{0, 1, 7, 8, 9, 11, 12, 13, 15, 16, 17, 23, 24, 28, 31, 32, 40, 48, 64}
+
+// c09CipherAlg: the assertion is encrypted with the library's own implementation of the step's algorithm; then the
+// cipher value is replaced by c09CipherLens[N] plan-derived bytes (N < 0: the genuine cipher value stays).
+func c09CipherAlg(st *c09Step) func(*etree.Element) *etree.Element {
+	return func(ea *etree.Element) *etree.Element {
+		if c09CipherAlgs[st.Variant%len(c09CipherAlgs)].bc == nil {
+			if em := ea.FindElement("./EncryptedData/EncryptionMethod"); em != nil {
+				em.CreateAttr("Algorithm", xmlenc.AES128GCM.Algorithm())
+			}
+		}
+		if st.N >= 0 {
+			if cv := ea.FindElement("./EncryptedData/CipherData/CipherValue"); cv != nil {
+				cv.SetText(c09B64(c09RandBytes(st.Seed, c09CipherLens[st.N%len(c09CipherLens)])))
 			}
 		}
 		return ea
@@ -1545,6 +1586,10 @@ func c09ExecResponse(c *c09Ctx, st *c09Step, k c09Knobs) {
 		case "ciphervalue-short":
 			o.Encrypt = true
 			o.MutEnc = c09ShortCipher(st)
+		case "cipher-algorithm":
+			o.Encrypt = true
+			o.EncCipher = c09CipherAlgs[st.Variant%len(c09CipherAlgs)].bc
+			o.MutEnc = c09CipherAlg(st)
 		case "encrypted-plaintext":
 			o.Encrypt = true
 			plain := c09EncPlain[st.Variant%len(c09EncPlain)]
@@ -1561,6 +1606,9 @@ func c09ExecResponse(c *c09Ctx, st *c09Step, k c09Knobs) {
 			kind = "other-element"
 		}
 		shape = "encrypted-plaintext-" + kind
+	}
+	if st.Kind == "corrupt" && st.Op == "cipher-algorithm" {
+		shape = "cipher-algorithm-" + c09CipherAlgs[st.Variant%len(c09CipherAlgs)].name
 	}
 	expect := "ANY"
 	if st.Kind == "good" {
@@ -2068,7 +2116,7 @@ func genTotality(g *Rng, tier string) *Plan {
 			st.Layer = "xml"
 			switch st.Family {
 			case "response":
-				ops = append(ops, "ciphervalue-short", "ciphervalue-short", "ciphervalue-short", "ciphervalue-short", "encrypted-plaintext", "encrypted-plaintext", "encrypted-plaintext", "encrypted-plaintext")
+				ops = append(ops, "cipher-algorithm", "cipher-algorithm", "cipher-algorithm", "cipher-algorithm", "cipher-algorithm", "ciphervalue-short", "ciphervalue-short", "ciphervalue-short", "ciphervalue-short", "encrypted-plaintext", "encrypted-plaintext", "encrypted-plaintext", "encrypted-plaintext")
 				if st.Entry == "ParseResponse/post" {
 					ops = append(ops, "b64-cut", "b64-pad", "b64-badchar")
 				}
@@ -2100,6 +2148,12 @@ func genTotality(g *Rng, tier string) *Plan {
 				st.N = Pick(g, 1<<16, 1<<20, 1<<20, 5<<20)
 			case "ciphervalue-short":
 				st.N = g.Intn(5)
+			case "cipher-algorithm":
+				st.Variant = g.Intn(len(c09CipherAlgs))
+				st.N = g.Intn(len(c09CipherLens))
+				if g.Bool(0.15) {
+					st.N = -1 // the genuine cipher value
+				}
 			default:
 				st.N = g.Intn(16)
 			}
@@ -2265,7 +2319,7 @@ func simplifyTotality(p *Plan) []*Plan {
 				with(i, func(s *c09Step) { s.Omit[j] = to })
 			}
 		}
-		if st.Kind == "corrupt" && !(st.Op == "rootless-document" && st.Layer == "xml") && st.Op != "ciphervalue-short" && st.Op != "encrypted-plaintext" {
+		if st.Kind == "corrupt" && !(st.Op == "rootless-document" && st.Layer == "xml") && st.Op != "ciphervalue-short" && st.Op != "encrypted-plaintext" && st.Op != "cipher-algorithm" {
 			with(i, func(s *c09Step) {
 				s.Op, s.Layer, s.Variant, s.Pms, s.N, s.Pm = "rootless-document", "xml", 0, nil, 0, 0
 			})
@@ -2284,10 +2338,10 @@ func simplifyTotality(p *Plan) []*Plan {
 		if to, ok := c09Canon[st.Entry]; ok && inflight {
 			with(i, func(s *c09Step) { s.Entry = to })
 		}
-		if to, ok := c09CanonOmit[st.Entry]; ok && (st.Kind == "omit" || st.Op == "ciphervalue-short" || st.Op == "encrypted-plaintext") {
+		if to, ok := c09CanonOmit[st.Entry]; ok && (st.Kind == "omit" || st.Op == "ciphervalue-short" || st.Op == "encrypted-plaintext" || st.Op == "cipher-algorithm") {
 			with(i, func(s *c09Step) { s.Entry = to })
 		}
-		if st.Encrypt && st.Op != "ciphervalue-short" && st.Op != "encrypted-plaintext" {
+		if st.Encrypt && st.Op != "ciphervalue-short" && st.Op != "encrypted-plaintext" && st.Op != "cipher-algorithm" {
 			with(i, func(s *c09Step) { s.Encrypt = false })
 		}
 		if st.Layout != "R" && st.Layout != "" {
